@@ -420,7 +420,7 @@ var quickBudget bool // child: use the quick tier's budgets for recursion templa
 func TestC04(t *testing.T) {
 	rec := ev.New("C04")
 	defer Finish(t, rec)
-	rec.Rule("One predicate over four generators, all run in child processes (RLIMIT_AS 6 GiB): the outcome of compile+run is a value, a Lua error or a killed context; a Go panic reaching the host's recover, a child dying with 'fatal error:'/'panic:'/a signal (a death of a long-lived worker is confirmed by re-running the in-flight case in a fresh child), or a limit template returning anything but a compile error or its Go-computed checksum is a violation; a child timeout is inconclusive (discarded). Non-trivial: source - the chunk compiles or its error position lies after the first non-blank byte (scanner and parser accepted at least one token); library - the call returned, or raised something that is not an argument-count/type/flag complaint; limit - size parameter beyond the encoding limit of its template; recursion - every template. Distinct by hash of (source bytes | function+argument names | template+size).")
+	rec.Rule("One predicate over five generators (random sources, library argument grid, limit templates, recursion templates, and vandalised library state: every pair of ~190 places the library or VM reads a value it expects to have a certain shape - fields of package, of the string/file metatables, of type-wide metatables set with debug.setmetatable, every metamethod slot of an object incl. self-referential ones - x 37 wrong-typed values, followed by ~165 probing operations under pcall, with and, for the functions that refuse to run under a limit, without a CPU limit), all run in child processes (RLIMIT_AS 6 GiB): the outcome of compile+run is a value, a Lua error or a killed context; a Go panic reaching the host's recover, a child dying with 'fatal error:'/'panic:'/a signal (a death of a long-lived worker is confirmed by re-running the in-flight case in a fresh child), or a limit template returning anything but a compile error or its Go-computed checksum is a violation; a child timeout is inconclusive (discarded). Non-trivial: source - the chunk compiles or its error position lies after the first non-blank byte (scanner and parser accepted at least one token); library - the call returned, or raised something that is not an argument-count/type/flag complaint; limit - size parameter beyond the encoding limit of its template; recursion - every template. Distinct by hash of (source bytes | function+argument names | template+size).")
 	rec.Assume("text chunks only: the bytes generators use CompileAndLoadLuaChunk/CompileLuaChunkOrExp, and load() is only given text or genuine string.dump output (the manual allows malicious binary chunks to crash the interpreter)")
 	rec.Assume("excluded by name: os.exit (documented effect is process exit), golib.import (shells out to the Go toolchain), io.read and io.lines without a file name (stdin), debug.sethook (changes the harness), os.execute/io.popen unless the command is the fixed string 'true' or not a string; file names are relative to a per-child scratch directory")
 	rec.Assume("accepted random sources are run with dangerous os/io functions replaced by a function that raises an error, a budget of 200k CPU ticks and 64 MB")
